@@ -20,7 +20,7 @@
     Status of each, see below. *)
 From Coq Require Import List NArith Bool.
 From XmlRs Require Import Base.CPred Model.Store Model.DomOps Proofs.DomTree Proofs.DomOpsInv
-  Proofs.DomL1NoPanic Proofs.DomL1Atomic Proofs.DomL1Abs Proofs.DomL1Refine Proofs.DomL1RefineInsert Proofs.DomExample Proofs.DomC12.
+  Proofs.DomL1NoPanic Proofs.DomL1Atomic Proofs.DomL1Abs Proofs.DomL1Refine Proofs.DomL1RefineInsert Proofs.DomL1RefineAttr Proofs.DomPrintable Proofs.DomExample Proofs.DomC12.
 From XmlRs Require Spec.DomCharData Spec.DomL1.
 Import ListNotations.
 Open Scope N_scope.
@@ -50,11 +50,20 @@ Open Scope N_scope.
       Where Level 1 is silent (insertBefore(x, x), replaceChild(x, x)) the statement is
       [DomL1.conforms]: no panic, and the state is the unchanged one or the one the specification
       offers.
+    - rung "attribute nodes" [C13_step_refines_partial_set_attribute_node],
+      [C13_step_refines_partial_set_named_item]: set_attribute_node and set_named_item replace the
+      attribute with the same nodeName, raise WRONG_DOCUMENT_ERR / INUSE_ATTRIBUTE_ERR as specified
+      (an attribute that already belongs to the receiver: Level 1 is silent, [conforms]); under the
+      additional hypothesis [WPrintable] (names are NCNames with an optional NCName prefix -- an
+      invariant of every reachable world, C15), which makes "same qualified name" and "same
+      nodeName" coincide;
     - rung "character data" [C13_step_refines_partial_data]: set_data, append_data, insert_data,
       delete_data, replace_data -- unconditional;
     - rung "text factories" [C13_step_refines_partial_factories]: create_text_node, create_comment,
       create_cdata_section, create_document_fragment, outside D42 ([Known42]).
-    NOT PROVED: replace_child on the Document, the attribute calls, split_text, the PI calls and
+    NOT PROVED: replace_child on the Document, the attribute calls that take names or look
+    attributes up (set_attribute, remove_attribute, remove_named_item, remove_attribute_node --
+    the last needs that qualified names are unique within an element), split_text, the PI calls and
     the factories that take names (the last three groups need the agreement of the
     implementation's parser facts with the grammar of the specification).  Those are compared with
     the extracted [dom_step] on the implementation, call by call, by checks/C13.py (the matrix of
@@ -75,6 +84,18 @@ Theorem C13_step_refines_partial_replace : forall w (r n o : nref),
   DomL1.conforms (abs w) (DomL1.AReplaceChild r n o) (abs (fst (step w (ReplaceChild r n o))))
                  (outcome_class (snd (step w (ReplaceChild r n o)))).
 Proof. exact step_refines_partial_replace. Qed.
+
+Theorem C13_step_refines_partial_set_attribute_node : forall w (r a : nref),
+  WInv w -> WPrintable w ->
+  DomL1.conforms (abs w) (DomL1.ASetAttributeNode r a) (abs (fst (step w (SetAttributeNode r a))))
+                 (outcome_class (snd (step w (SetAttributeNode r a)))).
+Proof. exact step_refines_partial_set_attribute_node. Qed.
+
+Theorem C13_step_refines_partial_set_named_item : forall w (r a : nref),
+  WInv w -> WPrintable w ->
+  DomL1.conforms (abs w) (DomL1.ASetNamedItem r a) (abs (fst (step w (SetNamedItem r a))))
+                 (outcome_class (snd (step w (SetNamedItem r a)))).
+Proof. exact step_refines_partial_set_named_item. Qed.
 
 Theorem C13_step_refines_partial_data : forall w o ao,
   WInv w -> is_data_op o = true -> abs_op o = Some ao -> refines_on w o ao.
@@ -154,6 +175,8 @@ Qed.
 Print Assumptions C13_step_refines_partial_append.
 Print Assumptions C13_step_refines_partial_insert.
 Print Assumptions C13_step_refines_partial_replace.
+Print Assumptions C13_step_refines_partial_set_attribute_node.
+Print Assumptions C13_step_refines_partial_set_named_item.
 Print Assumptions C13_step_refines_partial_data.
 Print Assumptions C13_step_refines_partial_remove.
 Print Assumptions C13_step_refines_partial_factories.
